@@ -33,6 +33,7 @@ func CorpusHistories(scratch string, names map[string]bool) ([]*History, []strin
 		nvals, nusers int
 		blocks        int
 		script        func(s *Sim, h int64) []*TxSpec
+		tweak         func(g *Genesis)
 	}
 	scs := []sc{
 		// two genesis stakes (both with tx hash 0) unbonding at once collide in the frozen ledger
@@ -41,7 +42,7 @@ func CorpusHistories(scratch string, names map[string]bool) ([]*History, []strin
 				return []*TxSpec{s.TxUnstake(s.Val(0), s.Val(0).Addr, zero32()), s.TxUnstake(s.Val(1), s.Val(1).Addr, zero32())}
 			}
 			return nil
-		}},
+		}, nil},
 		// a validator unbonds completely and stakes again twice inside one block (ledger set-after-delete)
 		{"restake-after-full-unbond", 2, 2, 5, func(s *Sim, h int64) []*TxSpec {
 			if h == 2 {
@@ -49,28 +50,135 @@ func CorpusHistories(scratch string, names map[string]bool) ([]*History, []strin
 				return SeqNonce([]*TxSpec{s.TxUnstake(v, v.Addr, zero32()), s.TxStake(v, v.Addr, 10), s.TxStake(v, v.Addr, 20)})
 			}
 			return nil
-		}},
+		}, nil},
 		// a delegation in block 2 must not change the rewards of block 4
 		{"reward-at-block-4", 2, 2, 7, func(s *Sim, h int64) []*TxSpec {
 			if h == 2 {
 				return []*TxSpec{s.TxStake(s.User(0), s.Val(0).Addr, 7)}
 			}
 			return nil
-		}},
+		}, nil},
 		// staking to a genesis validator already in block 1: versions before 1 do not exist
 		{"delegation-in-block-1", 2, 2, 7, func(s *Sim, h int64) []*TxSpec {
 			if h == 1 {
 				return []*TxSpec{s.TxStake(s.User(0), s.Val(0).Addr, 3)}
 			}
 			return nil
-		}},
+		}, nil},
 		// a genesis validator withdraws in block 1: its removal is never announced to consensus
 		{"genesis-validator-leaves-in-block-1", 3, 2, 5, func(s *Sim, h int64) []*TxSpec {
 			if h == 1 {
 				return []*TxSpec{s.TxUnstake(s.Val(0), s.Val(0).Addr, zero32())}
 			}
 			return nil
+		}, nil},
+		// byzantine evidence against a validator that also holds a stake too small to be slashed
+		// proportionally (floor(1*50/100) = 0): that stake is forfeited as a whole and must leave the totals
+		{"slash-with-tiny-stake", 2, 2, 7, func(s *Sim, h int64) []*TxSpec {
+			switch h {
+			case 2:
+				return SeqNonce([]*TxSpec{s.TxStake(s.User(0), s.Val(0).Addr, 1), s.TxStake(s.User(0), s.Val(0).Addr, 3)})
+			case 4:
+				s.scriptEvidence = [][]byte{s.Val(0).Addr}
+			case 5:
+				return []*TxSpec{s.TxStake(s.User(1), s.Val(0).Addr, 2)}
+			}
+			return nil
+		}, func(g *Genesis) { easyParams(g); g.Params.SlashRatio = 50 }},
+		// a validator's own stake falls below the minimum while delegations keep its total above it:
+		// it must leave the validator set (the selection is by own stake, the ranking by total power)
+		{"own-stake-falls-below-minimum", 2, 3, 9, func(s *Sim, h int64) []*TxSpec {
+			a := s.User(0)
+			switch h {
+			case 2:
+				return SeqNonce([]*TxSpec{s.TxStake(a, a.Addr, 10), s.TxStake(a, a.Addr, 5)})
+			case 3:
+				return []*TxSpec{s.TxStake(s.User(1), a.Addr, 10)}
+			case 5:
+				for _, st := range s.stakes {
+					if string(st.From) == string(a.Addr) && st.Power == 10 {
+						return []*TxSpec{s.TxUnstake(a, a.Addr, st.Hash)}
+					}
+				}
+			case 7:
+				return []*TxSpec{s.TxStake(s.User(2), a.Addr, 1)}
+			}
+			return nil
+		}, func(g *Genesis) { easyParams(g); g.Params.MinValidatorStake = rigo(10) }},
+		// governance lowers the maximum validator count from 3 to 2: the block after the parameters
+		// change must drop the third validator — also on a node restarted right at that boundary
+		{"validator-count-lowered-by-governance", 3, 2, 11, func(s *Sim, h int64) []*TxSpec {
+			switch h {
+			case 3:
+				np := s.params
+				np.MaxValidatorCnt, np.Version = 2, 2
+				t := s.TxProposal(s.Val(0), 4, 1, 6)
+				t.Prop.Options = []OptSpec{{Raw: np.JSON(true), Params: &np}}
+				return []*TxSpec{t}
+			case 4:
+				if len(s.H.WatchH) > 0 {
+					ph := s.H.WatchH[len(s.H.WatchH)-1]
+					return []*TxSpec{s.TxVote(s.Val(0), ph, 0), s.TxVote(s.Val(1), ph, 0), s.TxVote(s.Val(2), ph, 0)}
+				}
+			case 9:
+				return []*TxSpec{s.TxStake(s.User(0), s.Val(0).Addr, 1)}
+			}
+			return nil
+		}, func(g *Genesis) {
+			easyParams(g)
+			g.Params.MaxValidatorCnt = 3
+			g.Params.MinVotingPeriodBlocks, g.Params.MaxVotingPeriodBlocks, g.Params.LazyApplyingBlocks = 1, 3, 1
 		}},
+		// a validator that has already voted on an open proposal is slashed: its recorded weight and the
+		// votes it gave shrink together, so the tally never counts power that no longer exists
+		{"slashed-voter-on-open-proposal", 3, 2, 14, func(s *Sim, h int64) []*TxSpec {
+			switch h {
+			case 3:
+				np := s.params
+				np.MaxValidatorCnt, np.Version = 7, 2
+				t := s.TxProposal(s.Val(0), 4, 3, 9)
+				t.Prop.Options = []OptSpec{{Raw: np.JSON(true), Params: &np}}
+				return []*TxSpec{t}
+			case 4:
+				if len(s.H.WatchH) > 0 {
+					return []*TxSpec{s.TxVote(s.Val(0), s.H.WatchH[len(s.H.WatchH)-1], 0)}
+				}
+			case 5:
+				s.scriptEvidence = [][]byte{s.Val(0).Addr}
+			case 6:
+				if len(s.H.WatchH) > 0 {
+					return []*TxSpec{s.TxVote(s.Val(1), s.H.WatchH[len(s.H.WatchH)-1], 0)}
+				}
+			}
+			return nil
+		}, func(g *Genesis) {
+			easyParams(g)
+			g.Params.SlashRatio = 50
+			g.Vals[0].Power, g.Vals[1].Power, g.Vals[2].Power = 40, 30, 30
+			g.Params.MinVotingPeriodBlocks, g.Params.MaxVotingPeriodBlocks, g.Params.LazyApplyingBlocks = 1, 5, 1
+		}},
+		// several unbonding stakes mature in one block: several removals in one ledger commit
+		{"many-refunds-in-one-block", 2, 3, 8, func(s *Sim, h int64) []*TxSpec {
+			switch h {
+			case 2:
+				var txs []*TxSpec
+				for i := 0; i < 3; i++ {
+					for j := 0; j < 4; j++ {
+						txs = append(txs, s.TxStake(s.User(i), s.Val(j%2).Addr, int64(1+j)))
+					}
+				}
+				return SeqNonce(txs)
+			case 3:
+				var txs []*TxSpec
+				for _, st := range s.stakes {
+					if owner, ok := s.key(st.From); ok && !isZero(st.Hash) {
+						txs = append(txs, s.TxUnstake(owner, st.To, st.Hash))
+					}
+				}
+				return SeqNonce(txs)
+			}
+			return nil
+		}, nil},
 	}
 	var out []*History
 	var used []string
@@ -78,7 +186,11 @@ func CorpusHistories(scratch string, names map[string]bool) ([]*History, []strin
 		if len(names) > 0 && !names[c.name] {
 			continue
 		}
-		h, err := Scripted(c.name, int64(900000+i), scratch, c.nvals, c.nusers, easyParams, c.blocks, c.script)
+		tweak := c.tweak
+		if tweak == nil {
+			tweak = easyParams
+		}
+		h, err := Scripted(c.name, int64(900000+i), scratch, c.nvals, c.nusers, tweak, c.blocks, c.script)
 		if err != nil {
 			return nil, nil, err
 		}
@@ -113,6 +225,14 @@ func GovPanicScenarios(scratch string) (map[string]string, error) {
 		"gov-option-unparsable-after-rewrite":  []byte(`{"gasPrice":""}`),
 		"gov-negative-max-validator-count":     []byte(`{"maxValidatorCnt":"-5"}`),
 		"gov-zero-max-validator-count-limiter": []byte(`{"maxValidatorCnt":"-1","maxUpdatableStakeRatio":"1"}`),
+		// ranges the submission check does not enforce (InvReach.params_ok_needs_opts_ok): do they stop the node?
+		"gov-slash-ratio-above-100":       []byte(`{"slashRatio":"250"}`),
+		"gov-negative-slash-ratio":        []byte(`{"slashRatio":"-50"}`),
+		"gov-huge-reward-per-power":       []byte(`{"rewardPerPower":"115792089237316195423570985008687907853269984665640564039457584007913129639935"}`),
+		"gov-negative-signed-window":      []byte(`{"signedBlocksWindow":"-3","minSignedBlocks":"5"}`),
+		"gov-negative-lazy-reward-blocks": []byte(`{"lazyRewardBlocks":"-9"}`),
+		"gov-huge-gas-price":              []byte(`{"gasPrice":"115792089237316195423570985008687907853269984665640564039457584007913129639935"}`),
+		"gov-min-self-stake-ratio-500":    []byte(`{"minSelfStakeRatio":"500"}`),
 	}
 	out := map[string]string{}
 	i := 0
@@ -123,7 +243,7 @@ func GovPanicScenarios(scratch string) (map[string]string, error) {
 		h, err := Scripted(name, int64(910000+i), scratch, 1, 2, func(g *Genesis) {
 			easyParams(g)
 			g.Params.MinVotingPeriodBlocks, g.Params.MaxVotingPeriodBlocks, g.Params.LazyApplyingBlocks = 1, 3, 1
-		}, 11, func(s *Sim, h int64) []*TxSpec {
+		}, 14, func(s *Sim, h int64) []*TxSpec {
 			switch h {
 			case 3: // the validator set is known to the node from the end of block 2 on
 				return []*TxSpec{s.TxProposal(s.Val(0), 4, 1, 6, doc)}
@@ -132,8 +252,16 @@ func GovPanicScenarios(scratch string) (map[string]string, error) {
 					propHash = s.H.WatchH[len(s.H.WatchH)-1]
 					return []*TxSpec{s.TxVote(s.Val(0), propHash, 0)}
 				}
+			case 8: // the new parameters are in force: evidence, a missed vote, a withdrawal, an unstaking
+				s.scriptEvidence = [][]byte{s.Val(0).Addr}
 			case 9:
 				return []*TxSpec{s.TxStake(s.User(0), s.Val(0).Addr, 1)}
+			case 10:
+				for _, st := range s.stakes {
+					if string(st.From) == string(s.User(0).Addr) {
+						return []*TxSpec{s.TxUnstake(s.User(0), st.To, st.Hash)}
+					}
+				}
 			}
 			return nil
 		})
